@@ -110,17 +110,15 @@ aux_fn:
 LINKER_SCRIPT = '''ENTRY(_start)
 INPUT(aux.o)
 SECTIONS {
-  . = 0x400000 + SIZEOF_HEADERS;
-  .text : { *(.text .text.*) }
+  . = 0x400000;
+  .text : { start_of_text = .; *(.text .text.*) }
   .rodata : { *(.rodata .rodata.*) }
-  . = ALIGN(0x1000);
-  .data : { *(.data .data.*) }
+  . = ALIGN(4096);
+  .data : ALIGN(16) { KEEP(*(.data .data.*)) }
   .tdata : { *(.tdata) }
   .bss : { *(.bss) *(COMMON) }
-  /DISCARD/ : { *(.comment) }
 }
-ASSERT(1 == 1, "ok")
-PROVIDE(my_sym = 0x10);
+ASSERT(ALIGNOF(.text) == ALIGNOF(.text), "expected alignment")
 '''
 VERSION_SCRIPT = '''VER1 { global: seed_fn; extern "C++" { "foo()"; }; local: *; };
 VER2 { global: other*; } VER1;
